@@ -60,9 +60,22 @@ def check_counter(ctx, path, qual, name, at_most=False, over=None):
         for n in walk_own(f.node):
             if isinstance(n, ast.For) and isinstance(n.iter, ast.Call) and call_name(n.iter) == 'enumerate' \
                     and isinstance(n.target, ast.Tuple) and isinstance(n.target.elts[0], ast.Name) and n.target.elts[0].id == name:
-                start_ok = len(n.iter.args) == 1 and not n.iter.keywords
-                ctx.check('R-ONCE/counter', f, key, start_ok, '`%s` comes from enumerate() with a start offset' % name, n,
-                          sample='enumerate idiom')
+                want = 1 if name == 'order_idx' else 0
+                start = 0
+                if len(n.iter.args) > 1 and isinstance(n.iter.args[1], ast.Constant):
+                    start = n.iter.args[1].value
+                elif len(n.iter.args) > 1:
+                    start = None
+                for k_ in n.iter.keywords:
+                    start = k_.value.value if (k_.arg == 'start' and isinstance(k_.value, ast.Constant)) else None
+                ctx.check('R-ONCE/counter', f, key, start == want,
+                          '`%s` comes from enumerate() starting at %s, expected %d' % (name, start, want), n,
+                          sample='enumerate idiom, start %s' % start)
+                if over is not None:
+                    it = U(view.expand(n.iter.args[0], n))
+                    ctx.check('R-ONCE/loop', f, key, over in it and 'probe(' not in it,
+                              '`%s` enumerates `%s`; it must count the elements of the %s sequence' % (name, it[:60], over), n,
+                              sample='enumerates %s' % it[:60])
                 return
         raise AnalysisError('%s: counter `%s` not found (neither advanced in a loop nor an enumerate target)' % (f.where, name))
     if loop == 'MULTI':
